@@ -26,3 +26,43 @@ Print Assumptions C06_unlisted_zero.
 Theorem C06_tables_load : exists t, the_tbl = Some t.
 Proof. exact the_tbl_loaded. Qed.
 Print Assumptions C06_tables_load.
+
+(* ---- for ANY table contents (generic in the rows) ---- *)
+From PT Require Import C06Generic.
+
+(* whatever block the composition loader flushes, each listed isotope gets 100*p/total and no other
+   isotope of the element is touched *)
+Theorem C06_flush_normalises : forall t z b t', (0 < z)%Z -> tget t z 0 <> None ->
+  NoDup (map fst b) -> Forall (fun x => (0 <= fst x)%Z) b -> flush t z b = Some t' ->
+  (forall a p u, In (a, Some (p, u)) b -> exists total, block_total b = Some total /\ ab_q t' z a == 100 * p / total)
+  /\ (forall a', (0 <= a')%Z -> ~ In a' (map fst b) -> tget t' z a' = tget t z a').
+Proof. exact flush_normalises. Qed.
+Print Assumptions C06_flush_normalises.
+
+Theorem C06_flush_sums_to_100 : forall t z b t', (0 < z)%Z -> tget t z 0 <> None -> b <> nil ->
+  NoDup (map fst b) -> Forall (fun x => (0 <= fst x)%Z) b -> flush t z b = Some t' ->
+  C06Generic.Qsum (map (fun x => ab_q t' z (fst x)) b) == 100.
+Proof. exact flush_sums_to_100. Qed.
+Print Assumptions C06_flush_sums_to_100.
+
+(* n = rho*N_A/m and n*d^3 = 1/k with k = 1e-24, for every density, mass, Avogadro constant *)
+Theorem C06_n_d_relation : forall (rho m na k : Q), ~ rho == 0 -> ~ m == 0 -> ~ na == 0 -> ~ k == 0 ->
+  (rho / m * na) * (m / (rho * na * k)) == 1 / k.
+Proof. exact n_d_relation. Qed.
+Print Assumptions C06_n_d_relation.
+
+Theorem C06_number_density_value : forall na t d z r m,
+  density_of t d z 0 = Val r -> mass_of t z 0 = Val m -> Qeq_bool m 0 = false ->
+  number_density_of na t d z = Val (Qred (r / m * na)).
+Proof. exact number_density_value. Qed.
+Print Assumptions C06_number_density_value.
+
+Theorem C06_isotope_density_scaling : forall t d z a r mi me, a <> 0%Z ->
+  dens_get d z = Some (Some r) -> mass_of t z a = Val mi -> mass_of t z 0 = Val me -> Qeq_bool me 0 = false ->
+  density_of t d z a = Val (Qred (r * (mi / me))).
+Proof. exact isotope_density_scaling. Qed.
+Print Assumptions C06_isotope_density_scaling.
+
+Theorem C06_isotope_density_unknown : forall t d z a, a <> 0%Z -> dens_get d z = Some None -> density_of t d z a = NoneVal.
+Proof. exact isotope_density_unknown. Qed.
+Print Assumptions C06_isotope_density_unknown.
